@@ -8,7 +8,7 @@ CFG = {
     "theorems": [T + n for n in [
         "shoelace_eq_textbook", "shoelace_reverse", "shoelace_rotate", "shoelace_close",
         "centroidNum_reverse", "centroidNum_rotate", "centroidNum_close", "measure_spelling",
-        "C03_area", "C03_marea",
+        "pip_spec", "C03_area", "C03_marea",
         "C03_centroid", "C03_centroid_invariant", "C03_centroid_true", "C03_centroid_valid", "C03_centroid_bbox_partial",
         "op_agrees_area", "op_agrees_centroid", "op_centroid_unclosed_differs", "C03_mcentroid_unfixed_wrong",
         "C03_mcentroid_ring", "C03_mcentroid_spec_invariant", "C03_mcentroid",
@@ -19,7 +19,7 @@ CFG = {
         "Mathlib v4.33 modules imported by GeomV/C03/Lemmas*.lean and Proofs.lean (checked by the same kernel)",
         "model lean/GeomV/C03/Model.lean is tied to /repo/{area,multipolygon,linestring,multilinestring,simplify,point,bounds,within}.go and op/properties.go by the correspondence run on every check",
         "IEEE-754 rounding is modelled, not verified: exact Rat models coincide with the float code on integer grids (products < 2^53, compared exactly for areas) and within relative 1e-9 otherwise (measured by the run)",
-        "within.go's point-in-polygon test equals the crossing-number classification (property C02); here an explicit decidable hypothesis PipAgrees of C03_area, evaluated on every generated valid polygon",
+        "within.go's point-in-polygon test: the model is property C02's (GeomV.C02.Model, tied by C02's correspondence + regenerated definitions and again by this run through Polygon.Area); C02's theorem pointInPolygon_spec is composed with the C03 specification in pip_spec, so C03_area/C03_marea/C03_mcentroid carry no hypothesis about it",
         "measure of a simple ring := |shoelace|/2 (classical identification with Lebesgue area is part of the reading)",
         "harness/cmd/c03 + lean driver + lib/vcheck.py transport inputs faithfully",
     ],
